@@ -54,7 +54,7 @@ func runTLC(rep *kf.Report, r tlc.Run) *tlc.Result {
 		return nil
 	}
 	if res.ExitCode != 0 && res.Violated == "" {
-		rep.Infraf("tlc %s/%s exit %d:\n%s", r.Module, r.Cfg, res.ExitCode, res.Tail(25))
+		rep.Infraf("tlc %s/%s exit %d:\n%s\n...\n%s", r.Module, r.Cfg, res.ExitCode, strings.Join(res.Errors, "\n"), res.Tail(12))
 		return nil
 	}
 	return res
